@@ -20,6 +20,7 @@ type Sweep struct {
 	Pattern string            `json:"pattern"` // regexp on ssa function string
 	Flags   map[string]string `json:"flags"`
 	Kinds   []string          `json:"kinds"` // obligation kinds counted for this property (empty = all)
+	Requires []string         `json:"requires"` // preconditions assumed for swept functions without their own contract
 }
 
 type KnownFinding struct {
